@@ -13,7 +13,7 @@
      one_sheet out f g : out = Ok [cone; plane]; -s is {f < 0 and g > 0},
        +s is {f > 0 or g < 0}, and the cone's zero set is that of f. *)
 From Coq Require Import List ZArith Bool Reals Lra.
-From T4V Require Import Base.Scalar C02.Vec C02.Spec C02.Model C02.Proofs C02.ProofsCards C02.ProofsP3 C02.ProofsAll.
+From T4V Require Import Base.Scalar C02.Vec C02.Spec C02.Model C02.Proofs C02.ProofsCards C02.ProofsP3 C02.ProofsAll C02.ProofsAxis C02.ProofsNum.
 Import ListNotations.
 Open Scope R_scope.
 
@@ -296,6 +296,50 @@ Proof.
 Qed.
 Print Assumptions C02_convert_any_axis.
 
+(* the table entries 'c' and 'k' (general axis; not MCNP cards): same statement
+   with the cylinder / cone about the axis through (x,y,z) with direction (A,B,C) *)
+Theorem C02_C_K_any_axis_locus_sense :
+  (forall x y z r A B C : R, (A, B, C) <> (0, 0, 0) ->
+     exists s, convert_card RS M_C [x; y; z; r; A; B; C] = Ok [(s, 1%Z)] /\
+               surf_is s (cyl_about (x, y, z) (A, B, C) r)) /\
+  (forall x y z t A B C : R, (A, B, C) <> (0, 0, 0) ->
+     exists s, convert_card RS M_K [x; y; z; t; A; B; C] = Ok [(s, 1%Z)] /\
+               surf_is s (cone_about (x, y, z) (A, B, C) (t * t))) /\
+  (forall x y z t A B C s : R, (A, B, C) <> (0, 0, 0) -> s = 1 \/ s = -1 ->
+     one_sheet (convert_card RS M_K [x; y; z; t; A; B; C; s])
+               (cone_about (x, y, z) (A, B, C) (t * t))
+               (fun q => s * plane_through (x, y, z) (A, B, C) q)).
+Proof.
+  repeat apply conj.
+  - exact c_any_axis.
+  - exact k_any_axis.
+  - exact k_any_axis_sheet.
+Qed.
+Print Assumptions C02_C_K_any_axis_locus_sense.
+
+(* ---------- numbering of the emitted surfaces ---------- *)
+(* CollectionDict.number_items on a dictionary with distinct positive keys and
+   sides +-1: no id is given twice, and the k-th id of the matching of a key
+   designates (In (|id|, surface) numbering, sign id = side) the k-th surface
+   of that key's collection; it succeeds whenever no collection is empty.
+   SurfaceCollection.join with the single side +1 returns the collection. *)
+Theorem C02_number_items_spec :
+  (forall (A : Type) (dic : list (Z * list (A * Z))) num mat,
+     number_items dic = Ok (num, mat) ->
+     (forall k, In k (keys dic) -> (0 < k)%Z) -> NoDup (keys dic) ->
+     Forall (fun kv => unit_sides (snd kv)) dic ->
+     NoDup (map fst num) /\ Forall2 (entry_ok num) dic mat) /\
+  (forall (A : Type) (dic : list (Z * list (A * Z))) free,
+     Forall (fun kv => snd kv <> []) dic -> exists nm, number_loop free dic = Ok nm) /\
+  (forall (A : Type) (cl : list (A * Z)), cl <> [] -> join [(cl, 1%Z)] = Ok cl).
+Proof.
+  repeat apply conj.
+  - intros A. exact (@number_items_spec A).
+  - intros A. exact (@number_loop_total A).
+  - intros A. exact (@join_single A).
+Qed.
+Print Assumptions C02_number_items_spec.
+
 (* ---------- Spec sanity (the Spec says what the manual says) ---------- *)
 Theorem C02_spec_sanity :
   (forall (p1 p2 p3 : vec (T:=R)) (A B C D : R),
@@ -343,3 +387,10 @@ Example C02_example_runs :
   | _ => False
   end.
 Proof. vm_compute. exact I. Qed.
+
+(* number_items runs: surface 1 = cone + plane (side -1), surface 9 alone; the
+   plane gets the first free id 10 and the matching of 1 is [1; -10] *)
+Example C02_example_number_items :
+  number_items [(1%Z, [(true, 1%Z); (false, (-1)%Z)]); (9%Z, [(true, 1%Z)])] =
+  Ok ([(1%Z, true); (10%Z, false); (9%Z, true)], [(1%Z, [1%Z; (-10)%Z]); (9%Z, [9%Z])]).
+Proof. vm_compute. reflexivity. Qed.
